@@ -19,6 +19,7 @@ func init() {
 	register(&Scenario{Prop: "C11", Name: "gate-seq", Run: func(rc *RunCtx) { runGateSeq(rc, "C11") }})
 	register(&Scenario{Prop: "C11", Name: "gate-conc", Run: func(rc *RunCtx) { runGateConc(rc) }})
 	register(&Scenario{Prop: "C11", Name: "gate-stock-payload", Run: runGateStock})
+	register(&Scenario{Prop: "C11", Name: "gate-through-broker", Run: runGateBroker})
 	register(&Scenario{Prop: "C17", Name: "gate-expiry", Run: func(rc *RunCtx) { runGateSeq(rc, "C17") }})
 	register(&Scenario{Prop: "C17", Name: "gate-expiry-conc", Run: runGateExpiryConc})
 	register(&Scenario{Prop: "C17", Name: "gate-flush-conc", Run: runGateFlushConc})
@@ -1177,6 +1178,175 @@ func runGateStock(rc *RunCtx) {
 				fail("group-not-emitted", "stock", "event #%d of %q was accepted but its detail is in no composite, although the history ended with a flush of %q", want[wi].seq, id, id)
 				return
 			}
+		}
+	}
+}
+
+// ---- C11 through the REAL Broker: the filter is a node of a pipeline and emits through it ----
+//
+// Senders call Broker.Send; the filter's Sender is that same Broker, so an expired group is
+// emitted by a nested Send from inside the outer Send's pipeline; the composite's event
+// type has a pipeline of its own. Beside the senders run threshold setters / getters,
+// Reopen and IsAnyPipelineRegistered. Conservation is judged at the sinks: every event whose
+// Send succeeded reaches a sink inside exactly one composite of its id, in arrival order.
+
+type compSink struct {
+	h    *gateHarness
+	seqs [][]int
+}
+
+func (k *compSink) Type() el.NodeType { return el.NodeTypeSink }
+func (k *compSink) Reopen() error     { return nil }
+func (k *compSink) Process(ctx context.Context, e *el.Event) (*el.Event, error) {
+	simrt.Yield("compsink:process")
+	if cp, ok := e.Payload.(*compPayload); ok {
+		k.seqs = append(k.seqs, cp.Seqs)
+	} else {
+		k.seqs = append(k.seqs, []int{-9})
+	}
+	return nil, nil
+}
+
+func runGateBroker(rc *RunCtx) {
+	tp := rc.Tape
+	sim := rc.Sim
+	h := &gateHarness{now: time.Date(2026, 5, 1, 0, 0, 0, 0, time.UTC), composeFail: map[int]bool{}, composeGate: map[int]bool{}, sendFail: map[int]bool{}}
+	E := []time.Duration{50, 1000}[tp.Choose(2, "expiration")]
+	b, _ := el.NewBroker()
+	gf := &gated.Filter{Broker: b, Expiration: E, NowFunc: func() time.Time { return h.now }}
+	sink := &compSink{h: h}
+	b.RegisterNode("gate", gf)
+	b.RegisterNode("fmt", &passNode{el.NodeTypeFormatter})
+	b.RegisterNode("sink", sink)
+	if err := b.RegisterPipeline(el.Pipeline{PipelineID: "events", EventType: "t", NodeIDs: []el.NodeID{"gate", "fmt", "sink"}}); err != nil {
+		rc.Failf("C11.setup", "", "%v", err)
+		return
+	}
+	if err := b.RegisterPipeline(el.Pipeline{PipelineID: "composites", EventType: "composite", NodeIDs: []el.NodeID{"fmt", "sink"}}); err != nil {
+		rc.Failf("C11.setup", "", "%v", err)
+		return
+	}
+	nSenders := 1 + tp.Choose(3, "nsenders")
+	var evs []*gcEvent
+	seq := 0
+	var progs [][]string
+	for c := 0; c < nSenders; c++ {
+		id := []string{"a", "b", "c"}[c] // one id per sender: arrival order of an id is its sender's order
+		k := 1 + tp.Choose(5, "nops")
+		type step struct {
+			ev  *gcEvent
+			adv time.Duration
+		}
+		var prog []step
+		var pd []string
+		for i := 0; i < k; i++ {
+			if tp.Choose(3, "advance") == 0 {
+				d := []time.Duration{E / 2, E + 1, 3 * E}[tp.Choose(3, "adv")]
+				prog = append(prog, step{adv: d})
+				pd = append(pd, fmt.Sprintf("advance(%v)", d))
+				continue
+			}
+			seq++
+			e := &gcEvent{seq: seq, id: id, flush: tp.Choose(5, "flush") == 0}
+			evs = append(evs, e)
+			prog = append(prog, step{ev: e})
+			pd = append(pd, fmt.Sprintf("Send(%s,flush=%v)#%d", id, e.flush, e.seq))
+		}
+		progs = append(progs, pd)
+		sim.Spawn(fmt.Sprintf("sender%d", c), func() {
+			ctx := context.Background()
+			for _, st := range prog {
+				simrt.Yield("sender:step")
+				if st.adv > 0 {
+					h.now = h.now.Add(st.adv)
+					continue
+				}
+				e := st.ev
+				_, err := b.Send(ctx, "t", &gPayload{ID: e.id, Flush: e.flush, Seq: e.seq, h: h})
+				e.returned = true
+				e.accepted = err == nil
+				e.errd = err != nil
+			}
+		})
+	}
+	nCtl := tp.Choose(3, "ncontrol")
+	for c := 0; c < nCtl; c++ {
+		kinds := []int{tp.Choose(5, "ck"), tp.Choose(5, "ck"), tp.Choose(5, "ck")}
+		n := 1 + tp.Choose(4, "nctl")
+		sim.Spawn(fmt.Sprintf("control%d", c), func() {
+			for i := 0; i < n; i++ {
+				simrt.Yield("control:step")
+				typ := el.EventType([]string{"t", "composite"}[i%2])
+				switch kinds[i%len(kinds)] {
+				case 0:
+					b.SetSuccessThreshold(typ, 0)
+				case 1:
+					b.SetSuccessThresholdSinks(typ, 0)
+				case 2:
+					b.SuccessThreshold(typ)
+				case 3:
+					b.Reopen(context.Background())
+				default:
+					b.IsAnyPipelineRegistered(typ)
+				}
+			}
+		})
+	}
+	rc.Desc = map[string]interface{}{"senders": progs, "controls": nCtl, "expiration": E.String()}
+	rc.NonTrivial = true
+	sim.Run(nil)
+	if sim.Stuck {
+		if len(sim.Panics) == 0 {
+			rc.Failf("C11.stuck", stuckClass(sim), "events sent through the Broker to the gated filter (which emits through the same Broker) did not finish:\n  %s\n%s", strings.Join(sim.StuckInfo, "\n  "), sim.Deadlock)
+		}
+		return
+	}
+	if len(sim.Panics) > 0 {
+		return
+	}
+	drained := false
+	sim.Spawn("drain", func() {
+		for _, id := range []string{"a", "b", "c"} {
+			seq++
+			b.Send(context.Background(), "t", &gPayload{ID: id, Flush: true, Seq: 100000 + seq, h: h})
+		}
+		drained = true
+	})
+	sim.Run(nil)
+	if !drained {
+		rc.Failf("C11.stuck", "drain", "flush probes through the Broker did not finish: %s", strings.Join(sim.StuckInfo, "; "))
+		return
+	}
+	// conservation at the sink
+	for _, id := range []string{"a", "b", "c"} {
+		var want []int
+		for _, e := range evs {
+			if e.id == id && e.accepted {
+				want = append(want, e.seq)
+			}
+		}
+		var got []int
+		for _, c := range sink.seqs {
+			mine := false
+			for _, s := range c {
+				for _, e := range evs {
+					if e.seq == s && e.id == id {
+						mine = true
+					}
+				}
+			}
+			if !mine {
+				continue
+			}
+			for _, s := range c {
+				if s < 100000 {
+					got = append(got, s)
+				}
+			}
+		}
+		if !seqsEqual(got, want) {
+			rc.Failf("C11.lost", "through-broker", "id %s: the sinks received the events %v inside composites, the Sends that succeeded were %v (each exactly once, in order); composites at the sink: %v", id, got, want, sink.seqs)
+			return
 		}
 	}
 }
